@@ -41,6 +41,16 @@ def api_reference(infn, outfn, many, infmt, outfmt, allow):
         return fh.read(), None
 
 
+class ReturnValue(Exception):
+    """main() returned a non-zero value instead of raising: whether that becomes the exit status depends on the entry point."""
+
+
+def real_exit_status(argv):
+    r = subprocess.run([sys.executable, "-m", "iodata", *argv], capture_output=True, text=True, check=False,
+                       env={k: v for k, v in os.environ.items()})
+    return r.returncode, r.stderr
+
+
 def cli_main(argv):
     """Run iodata.__main__.main() in-process with the given argv; restore numpy error state afterwards."""
     import iodata.__main__ as m
@@ -51,7 +61,9 @@ def cli_main(argv):
     try:
         with warnings.catch_warnings():
             warnings.simplefilter("ignore")
-            m.main()
+            rv = m.main()
+        if rv not in (None, 0):
+            return ReturnValue(rv)
         return None
     except SystemExit as exc:
         return exc if exc.code not in (0, None) else None
@@ -102,8 +114,17 @@ def worker(chunk, seed, tier):
                 argv += ["--many" if seed % 2 else "-m"]
             argv += [inpath, outpath]
             exc = cli_main(argv)
-            with open(outpath, "rb") as fh:
-                got = fh.read()
+            if isinstance(exc, ReturnValue):
+                # ask the real entry point what the exit status is
+                with open(outpath, "wb") as fh:
+                    fh.write(SENTINEL)
+                code, _err = real_exit_status(argv)
+                exc = None if code == 0 else exc
+            if os.path.exists(outpath):
+                with open(outpath, "rb") as fh:
+                    got = fh.read()
+            else:
+                got = None
             sig = f"{tname}:-i={bool(infmt)}:-o={bool(outfmt)}:-c={allow}:-m={many}"
             if exc is None:
                 if ref_exc is not None:
@@ -111,14 +132,15 @@ def worker(chunk, seed, tier):
                     part.violation("success", f"cli-succeeds-api-fails:{sig}", info, f"iodata-convert {' '.join(argv[:-2])} {fname} -> {tname}: exit 0 but the API calls raise {ref_exc!r}")
                 elif got != ref_bytes:
                     part.outcome("cli", "DIFFERENT-BYTES")
-                    part.violation("bytes", f"cli-output-differs:{sig}", info, f"iodata-convert {' '.join(argv[:-2])} {fname} -> {tname}: output differs from the API's ({len(got)} vs {len(ref_bytes)} bytes)")
+                    part.violation("bytes", f"cli-output-differs:{sig}", info, f"iodata-convert {' '.join(argv[:-2])} {fname} -> {tname}: output differs from the API's ({None if got is None else len(got)} vs {len(ref_bytes)} bytes)")
                 else:
                     part.outcome("cli", "identical-bytes")
             else:
                 name = type(exc).__name__
                 part.outcome("cli", f"error-{name}" + ("" if ref_exc is not None else "(api-ok)"))
                 if name in ("PrepareDumpError", "FileFormatError") and got != SENTINEL:
-                    part.violation("preserved", f"cli-preflight-overwrites:{sig}", info, f"iodata-convert {fname} -> {tname}: {name} but the existing output file was modified")
+                    part.violation("preserved", f"cli-preflight-{'deletes' if got is None else 'overwrites'}-existing-output:{sig}", info,
+                                   f"iodata-convert {fname} -> {tname}: {name} but the existing output file was {'deleted' if got is None else 'modified'}")
                 if ref_exc is None and name != "FloatingPointError":
                     part.cov["cli_fails_api_ok"] = part.cov.get("cli_fails_api_ok", 0) + 1
     finally:
@@ -135,6 +157,11 @@ def subprocess_cases(ctx, inputs):
         for tname in ("xyz", "molden", "fchk", "json_qcschema"):
             runs.append((fname, infmt_needed, text, tname))
     runs = runs[:: max(1, len(runs) // (24 if not ctx.thorough else 120))]
+    # damaged inputs: the conversion fails while loading (or, with trajectories, while dumping a later frame)
+    for (origin, fname, infmt_needed, text) in inputs:
+        if origin == "generated" and fname in ("m.xyz", "m.sdf", "w.molden", "m.cube"):
+            lines = text.splitlines(keepends=True)
+            runs.append(("damaged_" + fname, infmt_needed, "".join(lines[: max(1, len(lines) // 2)]), "xyz"))
     from iodata.api import _select_format_module
 
     for fname, infmt_needed, text, tname in runs:
